@@ -28,6 +28,7 @@ type curAnalysis struct {
 	req    map[*types.Func]*curReq
 	fields map[*types.Var]string // struct fields that must hold a known code -> why
 	report map[string]bool
+	results map[string]*curResult
 	n      int
 	// per-program cache (the thorough tier analyses several programs in one process)
 	docTypes map[*types.Named]bool
@@ -104,6 +105,7 @@ func c14CurrencyImpl(c *core.Ctx) {
 	for _, f := range fkeys {
 		a.fieldSources(f, a.fields[f])
 	}
+	a.flush()
 	c.Extra("currency_deref_sites", a.n)
 }
 
@@ -168,6 +170,13 @@ func (a *curAnalysis) need(fd *core.FuncDecl, at ast.Node, e ast.Expr, why strin
 	// conversion currency.Code(x) of a constant handled above; of anything else: input
 	// guarded on this path?
 	if a.guardedAt(fd, at, e) {
+		if se, ok := e.(*ast.SelectorExpr); ok {
+			if f := core.FieldOf(info, se); f != nil {
+				if owner := fieldOwner(info, se); owner != nil && a.isDocumentType(owner) {
+					a.checked(fd, at, e)
+				}
+			}
+		}
 		return false
 	}
 	switch x := e.(type) {
@@ -607,19 +616,52 @@ func onlyDisjunctions(e ast.Expr) bool {
 	return true
 }
 
+type curResult struct {
+	pos token.Pos
+	ok  bool
+	msg string
+}
+
 func (a *curAnalysis) finding(fd *core.FuncDecl, at ast.Node, e ast.Expr, why, what string) {
 	key := fmt.Sprintf("%s#%s", fd.Name(), types.ExprString(e))
 	if a.report[key] {
 		return
 	}
 	a.report[key] = true
+	if a.results == nil {
+		a.results = map[string]*curResult{}
+	}
 	if reason, ok := currencySuppressed[key]; ok {
-		a.c.Ob("C14-R2", key, at.Pos(), true, "")
+		a.results[key] = &curResult{at.Pos(), true, ""}
 		a.c.Note("suppressed %s: %s", key, reason)
 		return
 	}
-	a.c.Ob("C14-R2", key, at.Pos(), false,
-		fmt.Sprintf("currency code %s: %s; it reaches a nil dereference for an unknown code: %s", types.ExprString(e), what, why))
+	a.results[key] = &curResult{at.Pos(), false,
+		fmt.Sprintf("currency code %s: %s; it reaches a nil dereference for an unknown code: %s", types.ExprString(e), what, why)}
+}
+
+// checked records that a document field was found guarded where it is needed: the
+// obligation exists (and holds) wherever the same field could have been reported.
+func (a *curAnalysis) checked(fd *core.FuncDecl, at ast.Node, e ast.Expr) {
+	key := fmt.Sprintf("%s#%s", fd.Name(), types.ExprString(e))
+	if a.results == nil {
+		a.results = map[string]*curResult{}
+	}
+	if _, has := a.results[key]; !has {
+		a.results[key] = &curResult{at.Pos(), true, ""}
+	}
+}
+
+func (a *curAnalysis) flush() {
+	var keys []string
+	for k := range a.results {
+		keys = append(keys, k)
+	}
+	sort.Strings(keys)
+	for _, k := range keys {
+		r := a.results[k]
+		a.c.Ob("C14-R2", k, r.pos, r.ok, r.msg)
+	}
 }
 
 // currencySuppressed: one named construct each, with the invariant relied on.
